@@ -9,7 +9,7 @@
                DictArray.load reads the file only when it exists               (the repaired code)
    Definitions only. *)
 From Verif Require Import Base.Prelude Base.StrUtil Base.Index Base.NdArr Base.PyRange Base.StrSeq
-  Model.MapSpec Model.MapRun Model.SymBody Model.MapResume.
+  Model.MapSpec Model.MapSpecSpec Model.MapRun Model.SymBody Model.MapResume.
 
 Inductive variant := OldCode | NewCode.
 (* ShmSt = shared_memory_dict: a DictArray whose elements are dumped by the submit phase (dump_in_subprocess) *)
@@ -158,6 +158,27 @@ Definition mapped_outputs (c : ctx) : result (list (str * nat)) :=
 Definition single_outputs (c : ctx) : list str :=
   flat_map (fun f => if is_mapped f then [] else fouts f) (x_p c).
 
+(* every real (non-temporary) file a run of the pipeline writes, by what it is for *)
+Inductive rpath :=
+| RInfo | RDefaults | RInput (n : str)
+| RDict (o : str) | RElem (o : str) (i : nat) | RSingle (o : str).
+Definition path_of (r : rpath) : path :=
+  match r with
+  | RInfo => p_info | RDefaults => p_defaults | RInput n => p_input n
+  | RDict o => p_dict o | RElem o i => p_elem o i | RSingle o => p_single o
+  end.
+Definition all_rpaths (mo : list (str * nat)) (singles names : list str) : list rpath :=
+  RInfo :: RDefaults :: map RInput names
+  ++ flat_map (fun on : str * nat => RDict (fst on) :: map (RElem (fst on)) (seq 0 (snd on))) mo
+  ++ map RSingle singles.
+(* distinct files have distinct names (true when input and output names are identifiers; decidable, so it can be
+   evaluated for any concrete pipeline) *)
+Definition paths_ok (c : ctx) (names : list str) : bool :=
+  match mapped_outputs c with
+  | Ok mo => nodup_str (map path_of (all_rpaths mo (single_outputs c) names))
+  | Err _ => false
+  end.
+
 (* RunInfo.init_store: FileArray(...) creates its folder; DictArray(...) loads what was persisted *)
 Definition init_step (v : variant) (st : storage) (acc : result (em * list (str * estore))) (on : str * nat)
   : result (em * list (str * estore)) :=
@@ -213,16 +234,47 @@ Section WithBody.
 
   Record outcome := { o_fs : fs; o_events : list event; o_result : result (list (str * val)) }.
 
+  (* _submit_generation on the sequential path (pipefunc commit "keep the results that completed before a function
+     raised during map"): the functions of a generation run in order; when one raises, the functions that ran before
+     it are post-processed (_process_generation: their single outputs are written, their elements reach the
+     DictArrays) before the exception propagates, and the elements of the failing function that were computed before
+     the failing one are dumped by _keep_completed_elements.  An exception raised by that post-processing replaces
+     the original one. *)
+  Fixpoint submit_gen_track (c : ctx) (ps : pstate) (ts : list task) (gen : list mfunc) : res (pstate * list task) :=
+    match gen with
+    | [] => ROk (ps, ts)
+    | f :: rest =>
+        match submit_func body c None ps f with
+        | ROk r => submit_gen_track c (fst r) (ts ++ [snd r]) rest
+        | RErr e tr =>
+            match fold_left (fun acc t => rdo ps' <- acc; process_task ps' t) ts
+                            (ROk {| p_store := p_store ps; p_out := p_out ps; p_tr := tr |}) with
+            | ROk ps' => RErr e (p_tr ps')
+            | RErr e' tr' => RErr e' tr'
+            end
+        end
+    end.
+
+  (* _run_and_process_generation; the flag tells whether the failure happened while submitting (then every element
+     computed so far has reached its storage, also a DictArray) *)
+  Definition run_generation_track (c : ctx) (ps : pstate) (gen : list mfunc) : res pstate * bool :=
+    match submit_gen_track c ps [] gen with
+    | RErr e tr => (RErr e tr, true)
+    | ROk r => (fold_left (fun acc t => rdo ps' <- acc; process_task ps' t) (snd r) (ROk (fst r)), false)
+    end.
+
   (* the generations of run_map, keeping what the memory-based storages hold when a generation fails:
-     a DictArray receives its elements in _process_task, so the elements computed by the failing generation's
-     submit phase are not in it (a failure inside the process phase is approximated by "all of them are") *)
-  Fixpoint run_gens_track (c : ctx) (gens : list (list mfunc)) (ps : pstate) : res pstate * rstore :=
+     None = every element dumped so far (failure while submitting, see above); Some rs = the store rs: a DictArray
+     receives its elements in _process_task, and a failure inside the process phase of a complete generation is
+     approximated by "none of this generation's elements are in it" (no such failure is generated by the harness) *)
+  Fixpoint run_gens_track (c : ctx) (gens : list (list mfunc)) (ps : pstate) : res pstate * option rstore :=
     match gens with
-    | [] => (ROk ps, p_store ps)
+    | [] => (ROk ps, Some (p_store ps))
     | gen :: rest =>
-        match run_generation body c None ps gen with
-        | ROk ps' => run_gens_track c rest ps'
-        | RErr e tr => (RErr e tr, p_store ps)
+        match run_generation_track c ps gen with
+        | (ROk ps', _) => run_gens_track c rest ps'
+        | (RErr e tr, true) => (RErr e tr, None)
+        | (RErr e tr, false) => (RErr e tr, Some (p_store ps))
         end
     end.
 
@@ -248,7 +300,10 @@ Section WithBody.
                 | (RErr e tr, rs_fail) =>
                     (* run_map's `finally`: the memory-based storages are persisted also when the run fails;
                        a shared_memory_dict already holds every element dumped so far *)
-                    let held := match st with ShmSt => replay_dumps c tr rs | _ => rs_fail end in
+                    let held := match st, rs_fail with
+                                | ShmSt, _ | _, None => replay_dumps c tr rs
+                                | _, Some r => r
+                                end in
                     fail (persist_all v st c held (fold_left (action_events v st) tr x3)) e
                 | (ROk ps, _) =>
                     let x4 := fold_left (action_events v st) (p_tr ps) x3 in
